@@ -322,13 +322,16 @@ def register_contents(world):
     dd = getattr(getattr(st, '_StatService__dd_reg'), '_DmgDealerRegister__dmg_dealers')
     arm = getattr(getattr(st, '_StatService__armor_rep_reg'), '_ArmorRepairerRegister__local_repairers')
     shl = getattr(getattr(st, '_StatService__shield_rep_reg'), '_ShieldRepairerRegister__local_repairers')
+    running = set()
+    for it in world.fit._item_iter():
+        running.update(it._running_effect_ids)
     for e in world.u.a.effects.values():
-        if eff_kind(e) == 'plain' and e.id != E.online:
-            continue
         n = ename(e.id)
-        out[('DmgDealerRegister', n)] = sorted(world.spy_id(i) for i, es in dd.items() if e in es)
-        out[('ArmorRepairerRegister', n)] = sorted(world.spy_id(i) for i, x in arm if x is e)
-        out[('ShieldRepairerRegister', n)] = sorted(world.spy_id(i) for i, x in shl if x is e)
+        for reg, ids in (('DmgDealerRegister', sorted(world.spy_id(i) for i, es in dd.items() if e in es)),
+                         ('ArmorRepairerRegister', sorted(world.spy_id(i) for i, x in arm if x is e)),
+                         ('ShieldRepairerRegister', sorted(world.spy_id(i) for i, x in shl if x is e))):
+            if ids or e.id in running:      # per-effect slices that can be non-empty on either side
+                out[(reg, n)] = ids
     return out
 
 
